@@ -75,3 +75,20 @@ def rt_byte(b):
     more = r.has_more_data
     v = r.read_byte()
     return (v, s.pos, len(s.data), more, r.has_more_data)
+
+
+def rt_int64(v):
+    s, w, r = _pair()
+    w._DateTimeZoneWriter__write_int64(v)
+    size = len(s.data)
+    x = r._DateTimeZoneReader__read_int64()
+    return (x, s.pos, size)
+
+
+def rt_transition_tokens(previous, value):
+    """Same round trip, used with the primitives replaced by their contracts (tokens)."""
+    s, w, r = _pair()
+    w.write_zone_interval_transition(previous, value)
+    tokens = list(s.data)
+    v = r.read_zone_interval_transition(previous)
+    return (v, s.pos, len(s.data), tokens)
